@@ -316,6 +316,54 @@ def scenario_scan_after_fit(run):
                         payload={"kind": "rerun"}, theorem="C03_valid")
 
 
+def scenario_inverted_interval(run):
+    """an interval given in descending order (accepted with a warning): the
+    fit is remembered like any other -- a hash is visible, the stored interval
+    is the one given, repeating the call (with no argument, with the same
+    interval) performs no optimisation, and the curve equals a fresh one"""
+    import warnings
+    cols = m1.small_curve(6, n_app=120, n_ret=50)
+    for rt, rx in (("absolute", [1e-6, -2e-6]),
+                   ("relative cp", [5e-7, -1.5e-6]),
+                   ("absolute", (1e-6, -1e-6))):
+        key = f"inverted-interval:{rt}:{canon(rx)}"
+        run.case({"scenario": "inverted-interval", "range_type": rt,
+                  "range_x": canon(rx)}, kind="scenario")
+        try:
+            with m1.Capture() as cap, warnings.catch_warnings():
+                warnings.simplefilter("ignore")
+                idnt = curves.make_indentation(cols)
+                idnt.apply_preprocessing(["compute_tip_position",
+                                          "correct_force_offset",
+                                          "correct_tip_offset"])
+                idnt.fit_model(model_key="hertz_para", range_type=rt,
+                               range_x=copy.deepcopy(rx))
+                fp = idnt.fit_properties
+                why = None
+                if fp.get("success") and "hash" not in fp:
+                    why = "a successful fit is shown without a hash"
+                elif [float(v) for v in fp["range_x"]] != \
+                        [float(v) for v in rx]:
+                    why = (f"the stored interval is {list(fp['range_x'])}, "
+                           f"the caller gave {list(rx)}")
+                else:
+                    c0 = cap.minimize_calls
+                    idnt.fit_model()
+                    idnt.fit_model(range_x=copy.deepcopy(rx))
+                    idnt.fit_model(model_key="hertz_para", range_type=rt,
+                                   range_x=copy.deepcopy(rx))
+                    if cap.minimize_calls != c0:
+                        why = (f"repeating the unchanged request performed "
+                               f"{cap.minimize_calls - c0} new optimisations")
+                    else:
+                        why = compare_with_fresh(idnt, cols)
+        except BaseException as e:
+            why = f"raised {type(e).__name__}: {e}"
+        if why:
+            run.failing(SITE, key, f"fit with {rt} interval {list(rx)}: {why}",
+                        payload={"kind": "rerun"}, theorem="C03_valid")
+
+
 def scenario_nested_option_edit(run):
     """the caller's own options object (a dictionary of per-step
     dictionaries) passed, a step option changed in place at the nested
@@ -480,6 +528,7 @@ def check(run):
     scenario_nested_option_edit(run)
     scenario_unsuccessful_refit(run)
     scenario_scan_after_fit(run)
+    scenario_inverted_interval(run)
     ok, detail = scenario_gcf(run)
     for k in run.known:
         if k.get("status") == "fixed" and k["id"].startswith("C03/gcf"):
